@@ -51,6 +51,12 @@ def features(deck):
         f.add('keyword_order')
     if deck.get('cardorder'):
         f.add('card_order')
+    if deck.get('tr6'):
+        f.add('six_entry_matrices')
+    if any(c.get('parens') is not None for c in deck['cells']):
+        f.add('redundant_parentheses')
+    if any(c.get('impsrc') == 'data' for c in deck['cells']):
+        f.add('imp_datacard_reals')
     return sorted(f)
 
 
@@ -78,6 +84,18 @@ def run(chk, decks, clauses, seed, optsets, npts=110, decorate=None, lo=-11, hi=
             rng.shuffle(d['cells'])
             rng.shuffle(d['surfs'])
             d['cardorder'] = True
+        if i % 7 == 3:
+            for c in d['cells']:         # redundant parentheses around runs of operands: same region
+                if not c.get('like'):
+                    c['parens'] = ('pairs%d' % (1 + (i // 7) % 3)) if c.get('lat') else rng.randrange(1000)
+        if i % 7 == 1:
+            d['tr6'] = True              # rotation matrices with six entries (two rows; the third is implied)
+            for c in d['cells']:
+                for key in ('ftrspell', 'trclspell'):
+                    if c.get(key) in ('12', 'star'):
+                        c[key] = {'12': '6', 'star': 'star6'}[c[key]]
+        if i % 7 == 5:
+            adeck.imp_datacards(d, i // 7)         # importances on an IMP:N data card, written as reals
         if i % 5 == 1:
             adeck.irrelevant_keywords(d, rng)      # VOL=, NONU=, TMP=, UNC:N= ... on the cell cards
         if i % 5 == 2:
